@@ -1892,6 +1892,8 @@ def c15_programs(tier, sd):
         [[["rng", lit(250), lit(255)], 3], [lit(3), 1], [lit(3), 0]],                         # the same value listed with weight 0 as well
         # weights given by expressions over non-random fields that change between the calls on one object
         [[lit(1), ["*", n, F("m")]], [["rng", lit(20), lit(25)], ["+", n, lit(0)]], [lit(2), F("m")], [lit(77), 1]],
+        # value AND weight both given by composite expressions over non-random fields
+        [[["+", n, lit(1)], ["*", F("m"), lit(0)]], [["+", n, lit(5)], ["+", F("m"), lit(1)]], [["rng", ["+", n, lit(10)], ["+", n, lit(12)]], ["*", F("m"), lit(2)]]],
     ]
     others = [[], [E(["<", a, b])], [E([">", a, lit(3)])], [E(["!=", a, lit(1)]), E(["!=", a, lit(100)])],
               [["if", [[["<", b, lit(128)], [E(["<", a, lit(50)])]]], [E([">=", a, lit(2)])]]], [E(["==", ["+", a, b], ["ulit", 12, 8]])]]
